@@ -488,6 +488,14 @@ func (s *Service) processWriteShardRequest(buf []byte) error {
 
 	points := req.Points()
 	atomic.AddInt64(&s.stats.WriteShardPointsReq, int64(len(points)))
+	// A point that could not be parsed is nil; it must not reach the store,
+	// which dereferences every point it is given.
+	for _, p := range points {
+		if p == nil {
+			atomic.AddInt64(&s.stats.WriteShardFail, 1)
+			return fmt.Errorf("write shard %d: request contains a point that cannot be parsed", req.ShardID())
+		}
+	}
 	err := s.TSDBStore.WriteToShard(req.ShardID(), points)
 
 	// We may have received a write for a shard that we don't have locally because the
